@@ -2,11 +2,13 @@ use crate::fw::*;
 
 pub mod c12_stack;
 pub mod c13_gas;
+pub mod c32_blob;
 
 pub fn dispatch(ctx: &Ctx) -> i32 {
     match ctx.id.as_str() {
         "C12" => c12_stack::run(ctx),
         "C13" => c13_gas::run(ctx),
+        "C32" => c32_blob::run(ctx),
         other => {
             eprintln!("unknown property {other}");
             3
